@@ -10,16 +10,55 @@ open Flussab Flussab.Btor2
 
 def b2str (bs : VBytes) : String := String.ofList (bs.map fun b => Char.ofNat b.toNat)
 
+/-- FNV-1a 64 (as `eng_btor2.rs::fnv64_step`). -/
+def b2fnvBytes (h : UInt64) (bs : VBytes) : UInt64 :=
+  bs.foldl (fun h b => (h ^^^ b.toUInt64) * 0x100000001b3) h
+
+def b2fnvStr (h : UInt64) (s : String) : UInt64 :=
+  s.foldl (fun h c => (h ^^^ c.toNat.toUInt64) * 0x100000001b3) h
+
+def b2fnvInit : UInt64 := 0xcbf29ce484222325
+
+def b2hex16 (h : UInt64) : String :=
+  String.ofList ((List.range 16).reverse.map fun i => hexDigit ((h.toNat / 16 ^ i) % 16))
+
+/-- A byte field of an observation: hex up to 256 bytes, `#<len>:<fnv-1a 64 of the bytes>` beyond
+(scale cases; same formula as `eng_btor2.rs::fhex`). -/
+def b2fhex (bs : VBytes) : String :=
+  if View.lengthGe bs 257 then s!"#{bs.length}:{b2hex16 (b2fnvBytes b2fnvInit bs)}" else hex bs
+
+/-- The condition list of a justice line: comma-joined up to 256 conditions,
+`#<n>:<fnv of the comma-joined text>` beyond. -/
+def b2justice (ns : List Nat) : String :=
+  if ns.isEmpty then "-"
+  else if ns.length ≤ 256 then ",".intercalate (ns.map toString)
+  else
+    let h := (ns.foldl (fun (acc : UInt64 × Bool) n =>
+      let h := if acc.2 then acc.1 else b2fnvStr acc.1 ","
+      (b2fnvStr h (toString n), false)) (b2fnvInit, true)).1
+    s!"#{ns.length}:{b2hex16 h}"
+
+/-- Items and final outcome, `|`-joined; if the joined items exceed 65536 bytes they are replaced
+by `#T<items>:<bytes>:<fnv of the joined items>` (as `eng_btor2.rs::join_obs`). -/
+def b2joinObs (items : List String) (fin : String) : String :=
+  let len := items.foldl (fun a s => a + s.utf8ByteSize) 0 + (items.length - 1)
+  if len > 65536 then
+    let h := (items.foldl (fun (acc : UInt64 × Bool) s =>
+      let h := if acc.2 then acc.1 else b2fnvStr acc.1 "|"
+      (b2fnvStr h s, false)) (b2fnvInit, true)).1
+    s!"#T{items.length}:{len}:{b2hex16 h}|{fin}"
+  else "|".intercalate (items ++ [fin])
+
 def b2optHex : Option VBytes → String
-  | some bs => hex bs
+  | some bs => b2fhex bs
   | none => "~"
 
 def b2Variant : NodeVariant → String
   | .sort (.bitVec w) => s!"sort.bitvec.{w}"
   | .sort (.array d c) => s!"sort.array.{d}.{c}"
-  | .value s (.const (.binary c)) => s!"val.{s}.const.{hex c}"
-  | .value s (.const (.decimal c)) => s!"val.{s}.constd.{hex c}"
-  | .value s (.const (.hex c)) => s!"val.{s}.consth.{hex c}"
+  | .value s (.const (.binary c)) => s!"val.{s}.const.{b2fhex c}"
+  | .value s (.const (.decimal c)) => s!"val.{s}.constd.{b2fhex c}"
+  | .value s (.const (.hex c)) => s!"val.{s}.consth.{b2fhex c}"
   | .value s (.const .one) => s!"val.{s}.one"
   | .value s (.const .ones) => s!"val.{s}.ones"
   | .value s (.const .zero) => s!"val.{s}.zero"
@@ -39,11 +78,10 @@ def b2Variant : NodeVariant → String
     -- the kind as the keyword without its trailing space
     s!"{b2str (Gen.Btor2.assignmentKindKw kind).dropLast}.{sort}.{state}.{value}"
   | .output (.singleValue kind v) => s!"out.{b2str (Gen.Btor2.singleValueOutputKindKw kind).dropLast}.{v}"
-  | .output (.justice ns) =>
-    "justice." ++ (if ns.isEmpty then "-" else ",".intercalate (ns.map toString))
+  | .output (.justice ns) => "justice." ++ b2justice ns
 
 def b2Line : Line → String
-  | .comment c => s!"c:{hex c}"
+  | .comment c => s!"c:{b2fhex c}"
   | .node n => s!"n:{n.id}:{b2Variant n.variant}:{b2optHex n.symbol}:{b2optHex n.comment}"
 
 /-- Length of the longest run of `a..z` in the input (which keyword-scanner steps a case needs). -/
@@ -53,7 +91,7 @@ def maxLowerRun (bs : VBytes) : Nat :=
 
 /-- `v=<b|d|h>:<hex>`: the model of the `TryFrom<&str>` validators. -/
 def runValidatorCase (v : String) : String × String :=
-  let bytes := unhex (String.ofList (v.toList.drop 2))
+  let bytes := dataField (String.ofList (v.toList.drop 2))
   let ok := match v.toList.head? with
     | some 'b' => binaryConstOk bytes
     | some 'd' => decimalConstOk bytes
@@ -84,7 +122,7 @@ def runBtor2Case (line : String) : String × String :=
       | (.ok none, _) => (acc.reverse, "END", cm, sy)
       | (.error e, _) => (acc.reverse, showPErr e, cm, sy)
   let (items, fin, cm, sy) := drive (data.length + 2) lr0 [] 0 0
-  ("|".intercalate (items ++ [fin]),
+  (b2joinObs items fin,
    s!"lines={items.length} fin={fin.take 5} fault={b2s fault} ls={b2s ls} cmt={cm} sym={sy} maxkw={maxLowerRun data}")
 
 end Driver
